@@ -226,6 +226,25 @@ Definition seq_case (d : descr) (v : val) : option (list val) :=
   | None => None
   end.
 
+(* A member observer may refuse a value (raysect's own validation: ValueError / RuntimeError /
+   TypeError raised by observer.a = v).  The loops of the group setters then stop there: the first k
+   members already carry their new value, the k-th raised e, the rest is untouched.  k and e are
+   inputs of the model (which member refuses what is raysect's business); the length check of the
+   group comes first.  (render_engine, whose loop has its own element guard, is not covered.) *)
+Definition set_sem_rej (d : descr) (v : val) (k : nat) (e : err) (g : group) : group * outcome :=
+  match d_shape d with
+  | TypedBroadcast _ _ | Members | ReadOnly | Custom => set_sem d v g
+  | _ =>
+      match seq_view d v with
+      | Some vs =>
+          if len_eq vs g then (zip_assign (d_zip d) (firstn k g) vs ++ skipn k g, Raised e)
+          else (g, Raised EValue)
+      | None =>
+          if scalar_case d v then (bcast (d_bcast d) v (firstn k g) ++ skipn k g, Raised e)
+          else set_sem d v g
+      end
+  end.
+
 (* ---------------------------------------------------------------------------------------- *)
 (* group classes, member retrieval, operations                                              *)
 (* ---------------------------------------------------------------------------------------- *)
@@ -241,7 +260,8 @@ Definition gid : Z := 1.       (* identity of the group node; 0 = no parent / an
 
 Definition accepts (c : gcls) (ty : Z) : bool := existsb (Z.eqb ty) (c_accept c).
 
-Inductive key := KInt (i : Z) | KSlice (lo hi : option Z) | KStr (s : string) | KBad.
+(* KIdx: an object with __index__ that is not an int (numpy integer) *)
+Inductive key := KInt (i : Z) | KSlice (lo hi : option Z) | KStr (s : string) | KBad | KIdx (i : Z).
 
 Inductive res :=
 | ROk
@@ -286,6 +306,11 @@ Definition getitem_0d (k : key) (g : group) : res :=
   | KSlice lo hi => RMems (map mid (slice_of g lo hi))
   | KStr s => match by_name s g with [m] => RMem (mid m) | _ => RErr EValue end
   | KBad => RErr EType
+  | KIdx i =>        (* tuple indexing accepts anything with __index__ *)
+      match norm_index (Z.of_nat (List.length g)) i with
+      | Some j => match nth_error g (Z.to_nat j) with Some m => RMem (mid m) | None => RErr EIndex end
+      | None => RErr EIndex
+      end
   end.
 
 (* BolometerCamera.__getitem__, bolometry.py:103-124: int, slice or str; first match by name.
@@ -301,6 +326,7 @@ Definition getitem_bolo (k : key) (g : group) : res :=
   | KSlice lo hi => RMems (map mid (slice_of g lo hi))
   | KStr s => match by_name s g with m :: _ => RMem (mid m) | [] => RErr EValue end
   | KBad => RErr EType
+  | KIdx _ => RErr EType      (* isinstance(item, (int, slice)) is False for a numpy integer *)
   end.
 
 Definition getitem (c : gcls) : key -> group -> res :=
@@ -348,7 +374,10 @@ Inductive op :=
 | OGet (a : string)                              (* group.a *)
 | OKey (k : key)                                 (* group[k] *)
 | OObserve                                       (* group.observe() *)
-| OLen.                                          (* len(group) *)
+| OLen                                           (* len(group) *)
+| ODirect (id : Z) (a : string) (v : val)        (* member.a = v, done on the member itself, not through the group *)
+| OMembers                                       (* group.observers / .sight_lines / .foil_detectors / list(group) *)
+| OAssignRej (a : string) (v : val) (k : nat) (e : err).  (* group.a = v where the k-th member refuses its value with e *)
 
 Definition find_descr (c : gcls) (a : string) : option descr :=
   find (fun d => String.eqb (d_name d) a) (c_table c).
@@ -385,6 +414,13 @@ Definition step (c : gcls) (e : env) (g : group) (o : op) : group * res :=
   | OKey k => (g, getitem c k g)
   | OObserve => (map mbump g, RObs (map mid g))
   | OLen => (g, RLen (Z.of_nat (List.length g)))
+  | ODirect id a v => (map (fun m => if mid m =? id then mset a v m else m) g, ROk)
+  | OMembers => (g, RMems (map mid g))
+  | OAssignRej a v k e =>
+      match find_descr c a with
+      | Some d => let (g', o) := set_sem_rej d v k e g in (g', match o with Done => ROk | Raised x => RErr x end)
+      | None => (g, RErr EAttr)
+      end
   end.
 
 Fixpoint run (c : gcls) (e : env) (g : group) (ops : list op) : group * list res :=
